@@ -34,7 +34,14 @@ ENGINES_UNUSED = [
 TEXT = dict(
     design_ref="DESIGN.md section 4, C13",
     technique="Coq proof that every error path of the allocator model returns the unchanged state + extracted-model differential with before/after state dumps",
-    text=("Proof (partial; rawdb part): the allocator model carries the state at the point of failure in every error result, and Props/C13.v states that for every reachable state and every refused request (write beyond the end, truncate beyond the length, rename onto an existing name, removal of a still-referenced region) the state is unchanged — hence the outcome of every later operation. On the real code the complete allocator state dump before and after every refused request is compared. The vecdb part (import mismatch, checked push, rollback without record) is covered by C14/C04/C16 engines as they land."),
+    text=("Proof: Props/C13.v: C13_rawdb — from every state satisfying the extent invariant, every refused allocator request "
+          "(write beyond the end, truncate beyond the length, rename onto an existing name, removal or retain of a still-referenced "
+          "region, ...) returns the state UNCHANGED (the model's error results carry the state at the point of failure, so this is a "
+          "theorem, not a convention); on the real code the complete allocator state dump before/after every refused request is "
+          "compared. vecdb part: the refusals are theorems of the vector models (C14_plain_mismatch / C14_import_never_touches, "
+          "C16_fail_single / C16_comp_fail_single, C03_step_refines for checked push) and engine vecerr checks on the real code that "
+          "each refused request (checked push, remove of a held vector, mismatching import, rollback without record) leaves every "
+          "region, the change directory and the re-imported contents unchanged."),
     note=("Trusted: Coq kernel; gen_consts.py; extraction + OCaml driver; harness. The allocator is modelled, not verified: "
           "the tie is differential agreement on a bounded sample of histories. Sequential semantics only (concurrency is C10)."),
 )
